@@ -26,7 +26,10 @@ func (st *State) releaseMon(mon *MonitorDecl, owner Term) {
 	dropped := false
 	for i := len(st.held) - 1; i >= 0; i-- {
 		h := st.held[i]
-		if !dropped && h.mon == mon && h.owner == owner {
+		// the owner is not compared: the same object is reached through different SSA values
+		// (each statement reloads the receiver), so the most recent acquisition of this
+		// monitor is the one released
+		if !dropped && h.mon == mon {
 			dropped = true
 			continue
 		}
